@@ -14,7 +14,7 @@ impl SignalKind {
 }
 
 static LISTENERS: Lazy<Mutex<Vec<(i32, UnboundedSender<()>)>>> = Lazy::new(|| Mutex::new(Vec::new()));
-static RAISED: Lazy<Mutex<Vec<(u64, i32)>>> = Lazy::new(|| Mutex::new(Vec::new()));
+static RAISED: Lazy<Mutex<Vec<(u64, u64, i32)>>> = Lazy::new(|| Mutex::new(Vec::new()));
 
 pub struct Signal {
     rx: UnboundedReceiver<()>,
@@ -35,7 +35,7 @@ pub fn signal(kind: SignalKind) -> std::io::Result<Signal> {
 /// World side: deliver a signal to the simulated PgCat process.
 pub fn raise(kind: SignalKind) {
     let seq = crate::log::world(|| format!("signal {}", kind.0));
-    RAISED.lock().push((seq, kind.0));
+    RAISED.lock().push((seq, crate::clock::now_us(), kind.0));
     for (k, tx) in LISTENERS.lock().iter() {
         if *k == kind.0 {
             let _ = tx.send(());
@@ -43,8 +43,8 @@ pub fn raise(kind: SignalKind) {
     }
 }
 
-/// (event seq, signal number) of every signal raised so far.
-pub fn raised() -> Vec<(u64, i32)> {
+/// (event seq, virtual us, signal number) of every signal raised so far.
+pub fn raised() -> Vec<(u64, u64, i32)> {
     RAISED.lock().clone()
 }
 
